@@ -21,13 +21,13 @@ CHECKS = {
    "Loop progress is observed through the verif step hook (CPU-time watchdog as backstop); truncation is classified by the harness' reference decoders; budgets are generous linear bounds. Suite scaling (64 KiB..2 MiB extreme shapes, 13 delivery modes, 32 MiB goroutine stack limit) decides proportional time/memory/stack; the lengths, tiny and mutants suites also run as a GOARCH=386 build (32-bit int).", "4.C03"),
  "C04": ("exploration", "differential against encoding/json (token stream, UseNumber) on grammar-generated texts and structural mutants",
    "The real JSON parser is compared with an independent RFC 8259 decoder on generated texts, the repository's corpora and structure-violating token sequences.",
-   "Trusts encoding/json and strconv as reference; numeric equality (not event kind) is compared.", "4.C04"),
+   "Trusts encoding/json and strconv as reference; numeric equality (not event kind) is compared. Every accepted document is also read through a pull decoder and through ONE long-lived parser per worker process (same events demanded); suite escapes enumerates all sequences of <= 3 escape fragments.", "4.C04"),
  "C05": ("exploration", "differential against an independent RFC 7049 decoder (all argument widths exhaustively for 0..65552)",
    "Foreign CBOR items over the subset, every width for every small value, and items with one injected unsupported feature are parsed by the real parser and compared with the harness' own RFC 7049 decoder.",
-   "Trusts the harness' refcbor decoder (cross-checked against an independent generator).", "4.C05"),
+   "Trusts the harness' refcbor decoder (cross-checked against an independent generator). Accepted items are also read through a pull decoder and one long-lived parser; a refusal must stand on the caller's next calls.", "4.C05"),
  "C06": ("exploration", "differential against an independent UBJSON draft-12 decoder",
    "Foreign UBJSON values with every marker, every length marker and nested optimized containers are parsed by the real parser and compared with the harness' own draft-12 decoder.",
-   "Trusts the harness' refubj decoder; no-ops are generated at value positions and between object members.", "4.C06"),
+   "Trusts the harness' refubj decoder; no-ops are generated at value positions and between object members; counts of 2^31..2^63-1 zero-width elements are delivered to a visitor that stops after 40 events (suite huge-counts).", "4.C06"),
  "C07": ("exploration", "differential: real encoders vs independent reference decoders + byte-level JSON scanners",
    "Streams with every extended event, every byte value in strings, all integer boundaries and float classes are written by the real encoders under every option; independent decoders must read back exactly the stream's value and byte-level scanners check the JSON-specific obligations.",
    "Trusts the reference decoders and the harness' JSON token scanner.", "4.C07"),
@@ -51,7 +51,7 @@ CHECKS = {
    "Trusts the fold model used to derive streams and the merge rule; suite prefilled covers targets that already hold data (null overwrites, regrown elements are new); one recorded known finding (ubjson uint64).", "4.C13"),
  "C14": ("exploration", "hostile (stream,target) pairs under panic guard, allocation budget, memory canaries, checkptr (race build) and ASan; abandon-at-every-k + Reset + probe differential",
    "Mismatching pairs and unbacked announced lengths are unfolded into canary-guarded targets under plain, race+checkptr and (thorough) ASan builds; every abandon point k is followed by Reset/SetTarget and a probe compared with a brand-new unfolder.",
-   "Canaries see only writes near the target; sanitizers only executed paths; allocation budget is a generous linear bound.", "4.C14"),
+   "Canaries see only writes near the target; sanitizers only executed paths; allocation budget is a generous linear bound. A sixth of the abandon cases configure the unfolder with user unfolders (differential against a new unfolder of the same configuration); suite nil-targets covers typed nil pointer targets.", "4.C14"),
  "C15": ("exploration", "scribble-and-compare aliasing monitor, forced-GC differential, checkptr and ASan builds over the real pipelines",
    "Targets are snapshotted, every reachable buffer is overwritten or reused by same-layout follow-up documents through the same parser/unfolder, and the targets re-compared; pipelines are re-run with GC forced at every event; all pipelines run under race+checkptr and (thorough) ASan.",
    "A stale zero-copy string is visible only if its memory is overwritten afterwards; the harness reaches caller chunks and parser buffers.", "4.C15"),
@@ -60,13 +60,13 @@ CHECKS = {
    "Faults are persistent (as the property states) and injected at the io.Writer / Visitor boundary; after the error the caller's next calls (Next x3, remaining Writes) are made too and must deliver no event.", "4.C16"),
  "C17": ("exploration", "history differential: used instance vs fresh instance on a probe; hook assertion of idle stack depths",
    "Histories of 0..6 complete documents through one encoder / parser / decoder / iterator / unfolder are followed by a probe whose output is compared with a new instance's; hooks assert idle nesting stacks after every document.",
-   "Needs the verif depth accessors for the idle assertion (output comparison works without).", "4.C17"),
+   "Needs the verif depth accessors for the idle assertion (output comparison works without). Histories include the key cache, user unfolders (same configuration on both sides), JSON options changed before the probe and buffer size 0.", "4.C17"),
  "C18": ("exploration", "offline checker over the recorded history of Next calls vs reference documents, under varied reader schedules",
    "Streams of 0..5 documents are read through byte and reader decoders with read sizes from 1 byte to the buffer size and EOF with/after data; the recorded history of Next results and events is checked against the reference values (one value per call, then io.EOF, truncation != EOF).",
    "Zero-length reads are issued only by way of buffer size 0 (which must not hang); JSON values are whitespace-separated as the property states.", "4.C18"),
  "C19": ("exploration", "Go race detector over barrier-released goroutine rounds + per-goroutine result equality with a sequential run",
    "4..64 goroutines with their own instances share inputs, values and freshly created types (first-use and cached-use) under GOMAXPROCS 2/16 with injected yields; race-log blocks and any deviation from the sequential results are violations; distinct interleavings are counted.",
-   "A race is reported only if both accesses occur in explored executions; failpoints are not used (no locks or suspension points to widen).", "4.C19"),
+   "A race is reported only if both accesses occur in explored executions; failpoints are not used (no locks or suspension points to widen). Goroutines use every parser entry point and both pull decoders, differently configured iterators, one shared FoldOption value, and values with inline interface fields.", "4.C19"),
  "C20": ("exploration", "differential: unfolder with key cache vs without vs document value, keys delivered from scribbled buffers",
    "Key sequences over small alphabets drive hits, misses, evictions and re-insertions for capacities 0..64; each document's target with the cache must equal the target without it and the document's value, with every key's source bytes overwritten after delivery.",
    "Eviction order is observed (hook) but not an oracle; suite capacities runs capacities up to 2^63-1 with an allocation bound on EnableKeyCache itself.", "4.C20"),
